@@ -20,7 +20,7 @@ def run(replay=None):
     thorough = tier() == 'thorough'
     rnd = rng('c10')
     rec = Recorder(rep, rnd, 64 if thorough else 32)
-    texts = family_texts(FAMS + (['bool2'] if thorough else []), rep, rnd, cap=None if thorough else 3000)
+    texts = family_texts(list(FAMS + (['bool2'] if thorough else [])) + [('rand', 8000, 5) if thorough else ('rand', 1500, 4)], rep, rnd, cap=None if thorough else 3000)
     for fam, text, entry, obj in parse_inputs(texts, ('expression', 'condition'), boolean_only=True):
         if entry == 'condition' and rnd.random() > 0.25:
             continue
